@@ -116,6 +116,9 @@ fn run_worker(id: &str, tier: &str, labels: &[String], timeout: Duration, trace_
                     current = Some(l.to_string());
                 } else if let Some(j) = line.strip_prefix("REPORT ") {
                     if let Ok(v) = serde_json::from_str::<Value>(j) {
+                        if v["wall_ms"].as_u64().unwrap_or(0) > 120_000 {
+                            eprintln!("[{}] slow entry: {} took {} s", id, v["label"].as_str().unwrap_or("?"), v["wall_ms"].as_u64().unwrap_or(0) / 1000);
+                        }
                         reports.push(v);
                     }
                     current = None;
